@@ -7,6 +7,8 @@ META = {
     "assumptions": [
         "allocation succeeds (allocation failure is property C18's subject)",
         "fprintf/logging have empty bodies",
+        "hashtable/config harnesses: posix_memalign hands out typed zero-initialised arena objects of exactly the requested (cache-line rounded) size, memset(0) on them is a no-op, memcpy is typed (cbmc's untyped malloc objects make this code intractable)",
+        "the hashtable's overwritten/deleted out-parameters are passed as NULL exactly as sched_config.c/pool_config.c do (they are not observable through the API; ABTU_hashtable_delete leaves *deleted unset when a one-entry bucket holds another key)",
     ],
     "outside": ["strings longer than the stated lengths", "ABT_init + smoke workload under generated environments (a run, not a solver question)"],
 }
@@ -44,6 +46,18 @@ def obligations(tier):
             defs = ["WHICH=%d" % w, "NDIG=%d" % n] + (["EXPECT_BIG"] if n >= 10 and w == 0 else [])
             o.append(Obl("afflex_shape_%s_%02d" % (fn, n), "C20/afflex.c", "%s on [2 chars ws/+/-][%d digits][non-digit]: exact value if it fits in int, rejected (never wrapped) otherwise, no signed overflow" % (fn, n),
                          defs=defs, unwind=n + 6, encodes=[fn], backend="cadical", bounds="%d digits" % n, symbolic="prefix, digits, terminator"))
+    # --- O1: hashtable + config objects ------------------------------------------------------------------
+    for op, nm in [(0, "set"), (1, "delete")]:
+        o.append(Obl("hashtable_1bucket_%s" % nm, "C20/hashtable.c", "ABTU_hashtable: 1-bucket table pre-filled by the real set with 0..3 entries under symbolic int keys (all collide), ONE %s on a symbolic key, then every key read back vs ghost map; frees exactly once, no leak" % nm,
+                     defs=["OP=%d" % op, "NENT=1"], unwind=4, backend="cadical", encodes=["ABTU_hashtable_create", "ABTU_hashtable_set", "ABTU_hashtable_get", "ABTU_hashtable_delete", "ABTU_hashtable_free"],
+                     bounds="3 distinct symbolic keys, chain length <= 3, 8-byte values", symbolic="keys, values, number of pre-inserted entries, operated key"))
+    o.append(Obl("hashtable_8bucket_lookup", "C20/hashtable.c", "ABTU_hashtable_get on an 8-bucket table for EVERY int key (negative, INT_MIN): bucket index in bounds, absent key not found",
+                 defs=["OP=2", "NENT=8", "NPRE=0"], unwind=10, backend="cadical", encodes=["ABTU_hashtable_get", "get_element"], bounds="4 lookups, empty table", symbolic="keys"))
+    nops = 4 if tier == "quick" else 6
+    for d, nm in [([], "sched_config"), (["POOLCFG"], "pool_config")]:
+        o.append(Obl("config_%s" % nm, "C20/config.c", "ABT_%s_create/set/get/delete/free: every sequence of %d typed operations on 3 colliding keys (5,-3,13) vs ghost map: value bits, type, absence, handle reset, everything freed once" % (nm, nops),
+                     defs=d + ["NOPS=%d" % nops], unwind=nops + 5, backend="cadical", encodes=["ABT_%s_set" % nm, "ABT_%s_get" % nm, "ABT_%s_free" % nm, "ABTU_hashtable_*"],
+                     bounds="%d operations, 3 keys in one bucket" % nops, symbolic="operation kinds, key choice, value types, value bits", timeout=600 if tier == "thorough" else 150))
     return o
 
 MANIFEST_ENTRY = {
